@@ -90,7 +90,7 @@ def grid_oracle(spec, params, mrow, cells):
     """the property's statement on the implementation's output, in measure space: cell c of a dimension must satisfy
     b_c <= m + eps/d (c > 0) and m + eps/d < b_{c+1} (c < d-1), up to rounding; m >= hi -> d-1; m <= lo -> 0"""
     dims, lo, hi, eps = params
-    prec = u.arith(spec["dtype"], spec["mdtype"])
+    prec = spec["dtype"]   # a float32 archive rounds interval_size = upper - lower in binary32 whatever the measures' dtype
     for i, (d, l, h, m, c) in enumerate(zip(dims, lo, hi, mrow, cells)):
         l, h, m, e = Q(l), Q(h), Q(m), Q(eps)
         w = h - l
@@ -117,7 +117,7 @@ def run_grid(case, driver):
     params = u.grid_params(a)
     dims, lo, hi, eps = params
     nd = len(dims)
-    prec = u.arith(spec["dtype"], spec["mdtype"])
+    prec = spec["dtype"]   # a float32 archive rounds interval_size = upper - lower in binary32 whatever the measures' dtype
     M = u.marr(rows, spec["mdtype"], nd)
     vals = [[float(x) for x in r] for r in np.asarray(M, dtype=np.float64).reshape(len(rows), nd)]
     fails = []
@@ -884,7 +884,7 @@ BROKEN = {"grid": "Model/Grid.v vs ribs/archives/_grid_archive.py:GridArchive.in
 DIRECT = {"grid-int32-overflow", "grid-edge", "grid-nonmonotone", "grid-dims-coupled", "grid-boundary-below", "grid-index-out-of-range",
           "biject-range", "biject-roundtrip", "biject-not-injective", "cvt-distance-overflow", "cvt-index-out-of-range", "cvt-not-nearest",
           "cvt-chunk-differs", "single-vs-batch", "sliding-index-out-of-range", "prox-index-out-of-range", "prox-not-nearest", "prox-empty",
-          "grid-raises", "cvt-raises", "sliding-raises", "prox-raises", "cvt-batch-length", "sliding-boundaries", "grid-boundaries"}
+          "impl-raises", "grid-raises", "cvt-raises", "sliding-raises", "prox-raises", "cvt-batch-length", "sliding-boundaries", "grid-boundaries"}
 
 
 def run_case(case, driver):
@@ -1151,12 +1151,16 @@ def gen_sliding_case(rng, tier):
             "buffer": rng.choice([remap, 2 * remap, 1000, 4]), "mdtype": rng.choice(["d", "d", "list", "f"])}
     n = rng.choice([0, remap - 1, remap, remap + 1, 2 * remap, 3 * remap + 1, rng.randint(0, 4 * remap)])
     pools = [[rng.uniform(lo, hi) for _ in range(rng.randint(1, 4))] for lo, hi in ranges]
+    top = rng.random() < 0.3   # measures crowding within a few epsilon below the largest one: boundaries inside [upper - eps, upper]
+    tops = [rng.uniform(lo, hi) for lo, hi in ranges]
     adds = []
     for _ in range(n):
         m = []
-        for (lo, hi), pool in zip(ranges, pools):
+        for (lo, hi), pool, t in zip(ranges, pools, tops):
             r = rng.random()
-            if r < 0.45:
+            if top and r < 0.7:
+                v = t - rng.randint(0, 8) * (spec["eps"] or 1e-9) / 4
+            elif r < 0.45:
                 v = rng.uniform(lo, hi)
             elif r < 0.8:
                 v = rng.choice(pool)
@@ -1271,7 +1275,14 @@ def check(rep, tier, seed, driver):
         raise RuntimeError("model driver not built; run ./setup.sh")
 
     def do(case):
-        fails, info = run_case(case, driver)
+        try:
+            fails, info = run_case(case, driver)
+        except Exception as e:  # noqa
+            import traceback
+            tr = traceback.format_exc()
+            in_impl = "/ribs/" in tr
+            fails, info = [fail("impl-raises" if in_impl else "harness-exception",
+                                "%s while running a valid case: %r" % ("the implementation raised" if in_impl else "harness exception", e), trace=tr[-1500:])], {}
         if fails:
             ctx.handle(case, fails)
         return fails, info
